@@ -36,5 +36,6 @@ def run(ctx):
         "bounded_search": {"programs": res["bounded_searches"], "runs": res["bounded_search_runs"], "finished_exhaustively": res["bounded_searches_finished"]},
     })
     ctx.coverage["chanlife_replay"] = life
+    ctx.coverage["apalache_inductive_invariant"] = gc.chanids_inductive(ctx)
     ctx.assumptions += gc.ASSUMPTIONS
     return "model_checking"
